@@ -389,7 +389,10 @@ def rand_optlist(rng, hostile=False):
                 val = rng.choice([b"-1", b"+5", b"", b"abc", b"1e3", b"18446744073709551616", b"0x10", b"99999999999999999999999"])
             opts.append((case_variants(rng, nm), val))
         else:
-            opts.append((rng.choice([b"foo", b"multicast", b"blksize2", b"", b"tsizee"]), rng.choice([b"1", b"x", b""])))
+            # unknown names, among them names that extend, truncate or decorate a recognised one
+            opts.append((rng.choice([b"foo", b"multicast", b"blksize2", b"", b"tsizee", b"windowsize2", b"WindowSizeHint", b"windowsize ", b"windowsiz",
+                                     b"timeoutms", b"tsize64", b"blk", b"xblksize", b"blksize\xc3\xa9", b"windowsize-max"]),
+                         rng.choice([b"1", b"x", b"", b"4", b"16", b"0", b"70000"])))
     return opts
 
 
